@@ -153,6 +153,40 @@ fn main() {
         println!("ALONE {} {:016x}", op, run_single(op));
         return;
     }
+    if args.get(1).map(|s| s.as_str()) == Some("replay") {
+        // conc replay <threads as json> <schedule>: runs the recorded schedule twice
+        let th: Vec<Vec<usize>> = serde_json::from_str(&args[2]).expect("threads json");
+        let sched = args[3].clone();
+        let exe = std::env::current_exe().unwrap();
+        let mut alone = vec![];
+        for i in 0..OPS.len() {
+            let o = std::process::Command::new(&exe).args(["alone", &i.to_string()]).output().expect("spawn");
+            let t = String::from_utf8_lossy(&o.stdout).to_string();
+            alone.push(t.lines().find_map(|l| l.strip_prefix("ALONE ")).and_then(|l| l.split_whitespace().nth(1)).and_then(|h| u64::from_str_radix(h, 16).ok()).expect("alone digest"));
+        }
+        ALONE.set(alone).unwrap();
+        static LAST_PANIC: std::sync::Mutex<String> = std::sync::Mutex::new(String::new());
+        std::panic::set_hook(Box::new(|info| {
+            let msg = info.payload().downcast_ref::<String>().cloned().or_else(|| info.payload().downcast_ref::<&str>().map(|s| s.to_string())).unwrap_or_default();
+            let mut l = LAST_PANIC.lock().unwrap();
+            if l.is_empty() || msg.contains("run-alone") {
+                *l = msg;
+            }
+        }));
+        let mut outcomes = vec![];
+        for _ in 0..2 {
+            LAST_PANIC.lock().unwrap().clear();
+            let th3 = th.clone();
+            let s2 = sched.clone();
+            let failed = std::panic::catch_unwind(move || shuttle::replay(move || body(&th3), &s2)).is_err();
+            let msg = LAST_PANIC.lock().unwrap().clone();
+            outcomes.push(if !failed { "passes".to_string() } else if msg.contains("run-alone") { format!("oracle failure: {msg}") } else { format!("schedule not applicable to this tree: {msg}") });
+        }
+        println!("replayed schedule twice: {outcomes:?}");
+        let reproduced = outcomes.iter().all(|o| o.starts_with("oracle failure"));
+        println!("{}", if reproduced { "REPLAY: violation reproduced" } else { "REPLAY: case passes (the recorded schedule no longer leads to a wrong result, or no longer applies because the scheduling points of the code changed)" });
+        std::process::exit(if reproduced { 1 } else { 0 });
+    }
     let thorough = args.iter().any(|a| a == "thorough");
     let cap: usize = if thorough { 200_000 } else { 20_000 };
     // wall budget for the whole exploration: with rerouted primitives the schedule space of a body can explode;
